@@ -73,6 +73,8 @@ def run(ctx):
             if ctx.time_left() < 0:
                 break
             d = gen.gen_doc(rng, schema, budget=rng.choice([6, 12, 20]))
+            if rng.random() < 0.25:
+                d = gen.gen_marky_doc(rng, schema) or d
             toks = doc_tokens(d)
             size = d.content.size
             dj = info.node(d)
